@@ -85,7 +85,7 @@ MAX_LINES = 3000
 COMPS = ["pooled", "conveyor", "gate", "batch", "reneging"]
 # restrictions lifted for this process, e.g. HV_C08_INDUS_LIFT=R1,R2 when checking a tree that carries the
 # repairs in fixes/C08-indus-*.diff (never set by ./check itself)
-LIFT = set(filter(None, os.environ.get("HV_C08_INDUS_LIFT", "R1,R2").split(",")))   # R1, R2 lifted: the two repairs are in /repo
+LIFT = set(filter(None, os.environ.get("HV_C08_INDUS_LIFT", "R1,R2,G1").split(",")))   # R1, R2 lifted: the two repairs are in /repo
 
 # --------------------------------------------------------------------------- transcript hand-over
 _ROOT_PID = os.getpid()
